@@ -102,6 +102,13 @@ type parentNode struct {
 	parent *parentNode
 }
 
+// pendingChildren stands for `left` children of parent.node that are still to
+// be read. The count comes from the input, so it must not be materialized.
+type pendingChildren struct {
+	parent *parentNode
+	left   uint64
+}
+
 func Deserialize(d *dict.Dict, r io.Reader) (*Tree, error) {
 	t := New()
 	br := bufio.NewReader(r) // TODO if it's already a bytereader skip
@@ -112,13 +119,18 @@ func Deserialize(d *dict.Dict, r io.Reader) (*Tree, error) {
 		return nil, err
 	}
 
-	parents := []*parentNode{{t.root, nil}}
+	pending := []pendingChildren{{&parentNode{t.root, nil}, 1}}
 	j := 0
 
-	for len(parents) > 0 {
+	for len(pending) > 0 {
+		top := &pending[len(pending)-1]
+		if top.left == 0 {
+			pending = pending[:len(pending)-1]
+			continue
+		}
+		top.left--
 		j++
-		parent := parents[0]
-		parents = parents[1:]
+		parent := top.parent
 
 		labelLen, err := varint.Read(br)
 		// if err == io.EOF {
@@ -155,8 +167,8 @@ func Deserialize(d *dict.Dict, r io.Reader) (*Tree, error) {
 			return nil, err
 		}
 
-		for i := uint64(0); i < childrenLen; i++ {
-			parents = append([]*parentNode{{tn, parent}}, parents...)
+		if childrenLen > 0 {
+			pending = append(pending, pendingChildren{&parentNode{tn, parent}, childrenLen})
 		}
 	}
 
@@ -169,13 +181,18 @@ func DeserializeNoDict(r io.Reader) (*Tree, error) {
 	t := New()
 	br := bufio.NewReader(r) // TODO if it's already a bytereader skip
 
-	parents := []*parentNode{{t.root, nil}}
+	pending := []pendingChildren{{&parentNode{t.root, nil}, 1}}
 	j := 0
 
-	for len(parents) > 0 {
+	for len(pending) > 0 {
+		top := &pending[len(pending)-1]
+		if top.left == 0 {
+			pending = pending[:len(pending)-1]
+			continue
+		}
+		top.left--
 		j++
-		parent := parents[0]
-		parents = parents[1:]
+		parent := top.parent
 
 		nameLen, err := varint.Read(br)
 		// if err == io.EOF {
@@ -207,8 +224,8 @@ func DeserializeNoDict(r io.Reader) (*Tree, error) {
 			return nil, err
 		}
 
-		for i := uint64(0); i < childrenLen; i++ {
-			parents = append([]*parentNode{{tn, parent}}, parents...)
+		if childrenLen > 0 {
+			pending = append(pending, pendingChildren{&parentNode{tn, parent}, childrenLen})
 		}
 	}
 
